@@ -24,7 +24,9 @@ RULE = ("cases: random rooted trees with 2..6 nodes (all ordered trees up to 5 n
         "with per-edge bond dimensions, caller states that are already canonical, two-site truncation switched on, default "
         "configuration / builder function / other exponential modes, real / integer / single-precision tensors, state and "
         "Hamiltonian magnitudes 1e-8..1e8, physical dimension 1, identifiers that are prefixes of each other, read-only "
-        "tensors, setter / reset histories); "
+        "tensors, setter / reset histories); plus 'heffval' cases: the effective-Hamiltonian functions on hand-built nodes "
+        "(0..4 neighbours, every neighbour order, both link orientations, two-site arrangements) with INTEGER tensors, the "
+        "library's matrix against the Lean model's own evaluation of the proved record (exact); "
         "non-trivial = distinct (tree shape, variant, seed) with at least 3 nodes or a redundant bond")
 PARTIAL = ["the local propagator itself (time_evolve) is property C20",
            "durations: proved for arbitrary segment lists (first_*/second_*/twoSite_* totals) and, with the C17 segment "
@@ -39,9 +41,18 @@ PARTIAL = ["the local propagator itself (time_evolve) is property C20",
            "with harness/props/c17.py) and, per call, by the dense E^H H E oracle",
            "effective Hamiltonians: proved as leg graphs in the C04 leg-label calculus (Ptn.C05.Heff.site_heff_graph, "
            "link_heff_graph, two_site_heff_graph: rows / columns / bound pairs for every neighbour order), compared with "
-           "the real functions by the 'heff' cases of harness/props/c04.py; that the leg graph evaluates to E^H H E "
-           "(value level, NumPy semantics) and the leg order of the contracted two-site tensor (C02) are decided by the "
-           "dense oracle",
+           "the real functions by the 'heff' cases of harness/props/c04.py; VALUE level (Ptn.C05.Heff.site_heff_value, "
+           "link_heff_value, two_site_heff_value and the _blocks forms, over every commutative semiring): every strongly "
+           "well-formed contraction program with the proved record evaluates to sum_{operator legs} W * prod_n Blk_n; "
+           "site_heff_is_projected_hamiltonian: with block records that are sandwich records of their components the "
+           "record of H_eff is the record of (bra network without the site) * TTNO * (ket network without the site) and the "
+           "value is sum_phys' (sum_phys E*H)*conj-E, for every site - the hypothesis about the block records is discharged "
+           "from the tree model only for the ROOT site (site_heff_projected_tree_root_partial: blocks of child subtrees, "
+           "C04 soKidBlock); for a non-root site the parent-direction block is not derived from the tree model; the value-level "
+           "semantics is tied to the code by the 'heffval' cases (integer tensors, the Lean model evaluates the proved "
+           "record with netValue and must reproduce the library's matrix exactly); that the program the code runs is "
+           "strongly well-formed with that record (provenance, as C04 `Built`) is not proved for the heff functions; the "
+           "leg order of the contracted two-site tensor (C02) and E^H H E on whole runs are decided by the dense oracle",
            "step / reset / step histories are decided by the oracle only"]
 ASSUMPTIONS = ["dense embedding built from algo.state by tensordot over labelled legs (harness/dense.py)",
                "numpy tensordot / reshape semantics"]
@@ -303,9 +314,87 @@ def run(ctx):
     c17.run_real_parts(ctx, ["events"], ctx.n(12, 120))
     # tie of the effective-Hamiltonian leg graphs (Ptn.C05.Heff) to the code (harness shared with C04)
     c04.run_heff(ctx)
+    # value level (Ptn.C05.Heff.site_heff_value / link_heff_value / two_site_heff_value): the Lean model evaluates the
+    # proved record on the library's INTEGER tensors (`netValue`) and must reproduce the library's matrix exactly
+    run_heff_values(ctx)
+
+
+def _int_rand_tensor(nprng, shape, complex_=True, small_int=False):
+    """stand-in for gen.rand_tensor while the effective-Hamiltonian functions are run on integer tensors"""
+    shape = tuple(int(s) for s in shape)
+    return nprng.integers(-2, 3, size=shape).astype(float)
+
+
+def _case_heff_value(ctx, case, model_out=None):
+    """One `heff` case of harness/props/c04.py on integer tensors: the matrix returned by the real function against the
+    Lean model's own evaluation (`C04 einrec`, i.e. `Ptn.Ein.netValue`) of the record it predicts (rows, columns, bound
+    pairs) on the same tensors - exact comparison."""
+    from harness.props import c04
+    if model_out is None:
+        model_out = ctx.lean.batch([c04.heff_line(case)])[0]
+    saved = c04.gen.rand_tensor
+    c04.gen.rand_tensor = _int_rand_tensor
+    try:
+        res = c04._run_heff_impl(case)
+    finally:
+        c04.gen.rand_tensor = saved
+    fn = case["fn"]
+    ctx.tally("heffval_fn", fn)
+    ctx.tally("heffval_outcome", res[0])
+    if model_out == "bad-op":
+        ctx.corr_fail(case, f"model rejects {c04.heff_line(case)!r}")
+        return
+    if res[0] == "error" or model_out == "error":
+        # exception behaviour is compared by the `heff` cases themselves
+        if (res[0] == "error") != (model_out == "error"):
+            ctx.corr_fail(case, f"{fn}: library outcome {res[0]} but the model answers [{model_out[:120]}]")
+        return
+    _, _ten, mat, operands = res
+    parts = model_out.split(" | ")
+    if len(parts) != 3 or not parts[2].startswith("binds"):
+        ctx.corr_fail(case, f"{fn}: unparsable model answer [{model_out[:200]}]")
+        return
+    rows, cols = parts[0].split()[1:], parts[1].split()[1:]
+    dim_of = {l: int(d) for arr, labs in operands for l, d in zip(labs, np.asarray(arr).shape)}
+    try:
+        want_shape = (int(np.prod([dim_of[l] for l in rows])), int(np.prod([dim_of[l] for l in cols])))
+    except KeyError as e:
+        ctx.corr_fail(case, f"{fn}: the model names a leg {e} that no operand has")
+        return
+    mat = np.asarray(mat)
+    if mat.shape != want_shape:
+        ctx.corr_fail(case, f"{fn}: H_eff has shape {mat.shape}, the rows / columns of the model give {want_shape}")
+        return
+    ctx.count(("heffval", c04.heff_line(case), case["seed"]), nontrivial=case.get("nontrivial", True), corr=True)
+    c04._model_value(ctx, case, "legs " + " ".join(rows + cols) + " | " + parts[2], operands,
+                     [complex(v) for v in mat.reshape(-1)])
+
+
+def run_heff_values(ctx):
+    from harness.props import c04
+    rng = ctx.subrng("heffval")
+    cases = c04.gen_heff_cases(ctx)
+    rng.shuffle(cases)
+    cases = cases[:ctx.n(90, 900)]
+    for c in cases:
+        c["via"] = "c05val"
+        c["seed"] = rng.randrange(10 ** 9)
+        if rng.random() < 0.7:
+            c["distinct"] = False           # small dimensions incl. 1: more neighbours fit the size cap
+    outs = ctx.lean.batch([c04.heff_line(c) for c in cases])
+    for c, mo in zip(cases, outs):
+        if ctx.time_left() < 0:
+            break
+        _case_heff_value(ctx, c, mo)
 
 
 def run_case(ctx, case):
+    if case.get("via") == "c05val":
+        case = dict(case)
+        for k in ("state", "ham", "link", "hamt", "hamx", "two"):
+            if k in case:
+                case[k] = (case[k][0], list(case[k][1]))
+        return _case_heff_value(ctx, case)
     if case.get("via") == "c17":
         from harness.props import c17
         return c17.run_case(ctx, case)
